@@ -156,6 +156,12 @@ def _sh(items):
 CHECK = Check()
 
 
+# R6: rule on the http prefix only; the pages live under the https prefix. Inserting the http
+# twin of a page creates a webentity whose variations capture that existing https page.
+R6 = (al.page(Sx), al.page(Sk, True), al.page(S + b"p:m|"), al.page(S + b"p:c|", True), al.page(S), al.page(Sw + b"p:q|"))
+INS6 = [al.page(Ax), al.page(A + b"p:k|", True), al.page(A + b"p:m|"), al.page(Aw + b"p:q|"), al.page(S + b"p:a|"), al.page(S + b"p:z|", True), al.page(Sx + b"p:deep|")]
+
+
 def p_tasks(tier):
     thorough = tier == "thorough"
     mw = 3 if thorough else 2
@@ -171,6 +177,10 @@ def p_tasks(tier):
             for k in ks:
                 for co in (False, True):
                     tasks.append(PTask(cfg, base, name, order, k, co, INS, mw))
+    for order in ([S, A, Sw, Aw], [Sw, S, Aw, A]):
+        for k in ks:
+            for co in (False, True):
+                tasks.append(PTask(Cfg("domain", {A: "path1"}), R6, "R6", order, k, co, INS6, mw))
     return tasks
 
 
